@@ -32,8 +32,42 @@ def _engine(modules):
         setup_repo_path()
         from .execs import Exec
         reg = load_registry(modules)
-        _ENG[key] = (Exec(reg, Frontend()), reg)
+        eng = Exec(reg, Frontend())
+        _ENG[key] = (eng, reg)
+        _warm_up(eng, reg)
     return _ENG[key]
+
+
+def _warm_up(eng, reg):
+    """Heap-array kinds are registered lazily, and `modifies` globs (`L:*`) expand over the kinds registered so far: without
+    this pass the set of arrays a call havocs -- and with it the shape of later obligations -- would depend on which paths
+    the worker process happened to run before.  One pass over the first path of every function under contract registers
+    the kinds up front, identically in every process."""
+    from .state import State, PathCut, Unsupported
+    for (file, qual), c in sorted(reg.contracts.items(), key=lambda kv: kv[0]):
+        if c.trusted or c.inline or not c.verify:
+            continue
+        try:
+            fi = eng.fe.lemma_func(c) if c.lemma_src is not None else eng.fe.func(c.file, c.qualname)
+            eng.touched = {}
+            eng.inline_depth = 0
+            eng.spec_mode = 0
+            eng.spec_stack = []
+            st = State([])
+            saved = os.environ.get("PYVC_NO_VACUITY")
+            os.environ["PYVC_NO_VACUITY"] = "1"
+            try:
+                eng.run_path(st, fi, c)
+            finally:
+                if saved is None:
+                    os.environ.pop("PYVC_NO_VACUITY", None)
+                else:
+                    os.environ["PYVC_NO_VACUITY"] = saved
+        except (PathCut, Unsupported, KeyError, OSError, SyntaxError, ImportError, RecursionError):
+            pass
+        except Exception:
+            pass
+    eng.__dict__.pop("_vacuity_probed", None)
 
 
 def _path_work(args):
